@@ -57,6 +57,7 @@ PROPS = {
         "race": True, "race_share": 0.4,
     },
     "C11": {
+        "autoyield": ["lib/concurrent/concurrent.go"],
         "level": "exploration",
         "design_ref": "DESIGN.md §5.3",
         "technique": "deterministic simulation: N programs on one environment under seeded schedules; solo-run refinement + leak probes + definition atomicity + race detector",
@@ -87,10 +88,11 @@ PROPS = {
                 "apply, map, quasiquote splices, closures, macros), parents chosen with a bias to re-extend the previous parent. non-trivial = some parent extended at least twice; "
                 "distinct = distinct (operation sequence, interleaving) hash",
         "assumptions": COMMON_ASSUMPTIONS + ["registration-time mutation of _PACKAGES_ by call.Call is outside the statement (not a builtin, special form, macro expansion or splice)"],
-        "must_hit": ["form:threads=1", "form:threads=2", "snapshot_comparisons"],
+        "must_hit": ["form:threads=1", "form:threads=2", "snapshot_comparisons", "retained_value_comparisons"],
         "race": True, "race_share": 0.35,
     },
     "C07": {
+        "autoyield": ["lib/concurrent/concurrent.go"],
         "level": "exploration",
         "design_ref": "DESIGN.md §5.4",
         "technique": "deterministic simulation: fake clock, cancellation injected at any step or instant into generated non-terminating programs; bounded-steps-after-cancel invariant",
@@ -104,7 +106,7 @@ PROPS = {
                 "bodies loop, sleep, return, rethrow), a step cost of 1us..1ms with optional jitter, and a cancellation (kind x instant, log-uniform up to ~32k steps). "
                 "non-trivial = the context ended while the program was running; distinct = distinct (program text, cancellation kind, instant, interleaving) hash",
         "assumptions": COMMON_ASSUMPTIONS + ["the word 'timeout' in the error message identifies a timeout error"],
-        "must_hit": ["fault:deadline", "fault:cancel-at-step", "fault:parent-cancel-at-step", "fault:ended-at-entry", "fault:deadline-parent", "wake:sleep.ctx", "wake:future.deref.ctx", "handler_probe_ok", "shape:try", "shape:macro"],
+        "must_hit": ["fault:deadline", "fault:cancel-at-step", "fault:parent-cancel-at-step", "fault:ended-at-entry", "fault:deadline-parent", "wake:sleep.ctx", "wake:future.deref.ctx", "handler_probe_ok", "shape:try", "shape:macro", "shape:tail-noargs", "shape:deref-shared-pending"],
         "race": False,
     },
     "C03": {
